@@ -165,6 +165,15 @@ def write_replay(pid, viol, script, extra):
     return path
 
 
+def _not_comparable():
+    try:
+        from contracts.c_zz_refines import NOT_COMPARABLE
+
+        return dict(NOT_COMPARABLE)
+    except Exception:
+        return {}
+
+
 def main():
     ap = argparse.ArgumentParser()
     ap.add_argument("pid")
@@ -414,6 +423,10 @@ def main():
         "solver_seconds": round(solver_s, 2),
         "functions_inlined_at_call_sites": sorted(inlined_all),
         "functions_verified_in_the_thorough_tier_only": thorough_only,
+        # X#refines: every behaviour allowed by X#body (verified against the source) is allowed by the abstract contract X
+        # the callers use; pairs that cannot be compared stay assumed, with the reason
+        "refinement_checks": sorted(q for q in fns if q.endswith("#refines")),
+        "abstract_contracts_not_compared_with_their_body_contract": {q: why for q, why in _not_comparable().items() if q + "#body" in R.CONTRACTS and pid in R.CONTRACTS[q + "#body"].props},
         "dropped_statements": sorted(dropped_all)[:40],
         "dropped_statement_count": len(dropped_all),
         "scans": scan_results,
@@ -438,7 +451,10 @@ def main():
     assumptions = list(R.ASSUMPTIONS.get(pid, [])) + list(R.ASSUMPTIONS.get("*", []))
     for q, c in R.CONTRACTS.items():
         if c.trusted and (pid in c.props or not c.props):
-            assumptions.append("trusted contract (not verified): %s %s" % (q, c.note))
+            if q + "#refines" in R.CONTRACTS:
+                assumptions.append("abstract contract used by the callers, refinement-checked (%s#refines) against %s#body, which is verified against the source under an invariant the call sites assume: %s %s" % (q, q, q, c.note))
+            else:
+                assumptions.append("trusted contract (not verified): %s %s" % (q, c.note))
         elif pid in c.props and c.note:
             assumptions.append("%s: %s" % (q, c.note))
     ev = {
